@@ -38,15 +38,23 @@ impl Report {
     /// `sig` is the signature used for known-finding matching:
     /// property|level|flavour|policy|kind|discriminator
     pub fn violation(&mut self, prop: &str, sig: &str, what: &str, witness: Value) {
+        self.violation_tainted(prop, sig, what, witness, "", "")
+    }
+    /// A violation of capacity bookkeeping (`prop`) observed while the cache still carried
+    /// traces of an expiry purge or an invalidation (`cause`): if the same kind of violation is
+    /// never seen without such traces in the run, the merger attributes it to `alt_prop`
+    /// ("an expired entry no longer occupies capacity", C06; "after any invalidation limits
+    /// behave as if the removed entries had never been stored", C13).
+    pub fn violation_tainted(&mut self, prop: &str, sig: &str, what: &str, witness: Value, alt_prop: &str, cause: &str) {
         // keep at most a handful of witnesses per signature, but count all
-        let n = self.violations.iter().filter(|v| v["sig"] == sig).count();
+        let n = self.violations.iter().filter(|v| v["sig"] == sig && v["taint"] == cause).count();
         self.count(prop, "violations_seen", 1);
         if n < 3 {
-            self.violations.push(json!({"property": prop, "sig": sig, "what": what, "witness": witness}));
+            self.violations.push(json!({"property": prop, "sig": sig, "what": what, "witness": witness, "taint": cause, "alt_property": alt_prop}));
         } else {
             // bump a counter on the first record with this signature
             for v in self.violations.iter_mut() {
-                if v["sig"] == sig {
+                if v["sig"] == sig && v["taint"] == cause {
                     let c = v.get("more").and_then(|x| x.as_u64()).unwrap_or(0);
                     v.as_object_mut().unwrap().insert("more".into(), json!(c + 1));
                     break;
@@ -58,6 +66,60 @@ impl Report {
         self.count(prop, "inconclusive", 1);
         if self.inconclusive.len() < 20 {
             self.inconclusive.push(json!({"property": prop, "why": why}));
+        }
+    }
+    /// Merge the JSON report of a child process (written with `shards_disjoint == false`).
+    pub fn absorb(&mut self, v: &Value) {
+        if let Some(cs) = v["counters"].as_object() {
+            for (p, m) in cs {
+                if let Some(m) = m.as_object() {
+                    for (k, n) in m {
+                        self.count(p, k, n.as_u64().unwrap_or(0));
+                    }
+                }
+            }
+        }
+        if let Some(ds) = v["distinct"].as_object() {
+            for (p, d) in ds {
+                if let Some(hs) = d["hashes"].as_array() {
+                    let set = self.distinct.entry(p.clone()).or_default();
+                    for h in hs {
+                        if let Some(x) = h.as_str().and_then(|s| u64::from_str_radix(s, 16).ok()) {
+                            set.insert(x);
+                        }
+                    }
+                }
+            }
+        }
+        if let Some(ss) = v["samples"].as_object() {
+            for (p, arr) in ss {
+                for s in arr.as_array().into_iter().flatten() {
+                    self.sample(p, s.clone(), 3);
+                }
+            }
+        }
+        for x in v["violations"].as_array().into_iter().flatten() {
+            let sig = x["sig"].as_str().unwrap_or("");
+            let taint = x["taint"].as_str().unwrap_or("");
+            let n = self.violations.iter().filter(|v| v["sig"] == sig && v["taint"] == taint).count();
+            if n < 3 {
+                self.violations.push(x.clone());
+            } else if let Some(first) = self.violations.iter_mut().find(|v| v["sig"] == sig && v["taint"] == taint) {
+                let c = first.get("more").and_then(|x| x.as_u64()).unwrap_or(0) + 1 + x.get("more").and_then(|x| x.as_u64()).unwrap_or(0);
+                first.as_object_mut().unwrap().insert("more".into(), json!(c));
+            }
+        }
+        for x in v["inconclusive"].as_array().into_iter().flatten() {
+            if self.inconclusive.len() < 20 {
+                self.inconclusive.push(x.clone());
+            }
+        }
+        for x in v["notes"].as_array().into_iter().flatten() {
+            if self.notes.len() < 40 {
+                if let Some(s) = x.as_str() {
+                    self.notes.push(s.to_string());
+                }
+            }
         }
     }
     pub fn to_json(&self) -> Value {
